@@ -328,6 +328,8 @@ def run_c12(pid, tier):
     ncrash = sum(1 for r in rs for x in r["runs"] if x["kind"] == "C")
     for s in scen[:1]: chk.sample(dict(steps=[str(x)[:80] for x in s[:40]]))
     chk.notes["runs_compared_with_clean_build"] = nruns; chk.notes["crashed_builds"] = ncrash
+    hyps = [x["model"].get("hyp") for r in rs for x in r["runs"] if x["kind"] == "R" and x.get("model")]
+    chk.notes["second_run_theorem_side_conditions"] = "plan_ok (planned paths pairwise distinct, planned contents valid UTF-8) evaluated by the extracted driver on %d runs: held on %d" % (len(hyps), sum(1 for h in hyps if h == "1"))
     chk.cov["rule"] = ("edit histories of length %d over a template tree and a static directory (add / modify / delete / rename / break / repair templates, add directories, edit statics), each followed by a run; before a run "
                        "optionally: arbitrary garbage or truncation in an output file, or a build killed at its k-th physical write (k in 0..5) with the file cut at 0 / half / len-1 bytes (crash hook); every output file gets a sentinel mtime; "
                        "after each run the files reachable from templates.rs are compared with a clean build of the same inputs, and the set of rewritten files with the model's write list. non-trivial = a run after at least one edit") % H
@@ -466,6 +468,10 @@ def run_c18(pid, tier):
         sd = [('W', 'some/where/else/q/' + name, src), ('W', 'some/where/else/other.rs.html', '@()x'), ('R', [('c', 'some/where/else')]), ('R', [('c', 'some/where/else')])]
         # statics: same set of names in different orders
         names = rng.sample(["a.css", "b.js", "c-d.png", "e.f.txt", "g_h.woff", "0.ico"], rng.randint(2, 5))
+        if rng.random() < 0.4:
+            # published names that agree on their first 40 / 70 bytes
+            lp = "the-long-common-prefix-of-several-file-names" + ("-and-then-some-more-of-the-same" if rng.random() < 0.5 else "")
+            extra = [lp + "-responsive.min.css", lp + "-responsive.css", lp + ".js"]; rng.shuffle(extra); names += extra[:rng.randint(2, 3)]
         p1 = [('s',)] + [('d', x, x.encode()) for x in names]
         p2 = [('s',)] + [('d', x, x.encode()) for x in sorted(names, reverse=True)]
         if rng.random() < 0.5 and len(names) >= 2:
@@ -485,11 +491,16 @@ def run_c18(pid, tier):
         sg = [('W', 't/' + name, src), ('W', 't/sub/' + name, src), ('W', 't/sub/deep/' + name, src), ('W', 't/other/' + name, src), ('W', 't/other/sub/' + name, src),
               # sibling directories whose names are prefixes of one another, and of the word `templates`
               ('W', 't/adm/' + name, src), ('W', 't/adm_pages/' + name, src), ('W', 't/temp/' + name, src), ('W', 't/sub/su/' + name, src), ('R', [('c', 't')])]
-        scen += [sa, sb, sc, sd, se, sf, sg]; meta.append((name, src, sib, len(scen) - 7))
+        # (h) one OUT_DIR over four runs while each template of a sub-directory is taken away in turn and put back
+        trio = [rng.choice(IDENTS) + "%d" % k + rng.choice(SUFFIX) for k in range(3)]
+        sh = [('W', 't/sub/' + f, "@()\nH") for f in trio] + [('R', [('c', 't')])]
+        for k, f in enumerate(trio):
+            sh += ([('W', 't/sub/' + trio[k - 1], "@()\nH")] if k else []) + [('X', 't/sub/' + f), ('R', [('c', 't')])]
+        scen += [sa, sb, sc, sd, se, sf, sg, sh]; meta.append((name, src, sib, len(scen) - 8, trio))
     rs = run_keyed(scen)
     # the same scenarios again from another cwd, with another environment and locale
     env2 = dict(os.environ, LANG="tr_TR.UTF-8", LC_ALL="C", TZ="Pacific/Kiritimati", HOME="/nonexistent", CARGO_PKG_NAME="zzz", OUT_DIR="/nonexistent/out")
-    rs_env = run_scenarios_env([s for s in scen[::7]], env2, cwd="/")
+    rs_env = run_scenarios_env([s for s in scen[::8]], env2, cwd="/")
     disagree = []; oracle_fail = []
     model_vs_impl(chk, rs, disagree, what=("fs",))
     def tfile(r, runi, name):
@@ -497,7 +508,17 @@ def run_c18(pid, tier):
         files = snap_files(r["runs"][runi]["after"])
         cand = [c for p, c in files.items() if p.decode().endswith("/template_%s.rs" % fn)]
         return cand[0] if len(cand) == 1 else None
-    for k, (name, src, sib, s0) in enumerate(meta):
+    for k, (name, src, sib, s0, trio) in enumerate(meta):
+        # (h): after every run the sub-directory's module declares exactly the templates that are there now
+        hr = [x for x in rs[s0 + 7]["runs"] if x["kind"] == "R"]
+        for ri, run in enumerate(hr):
+            present = [f for j, f in enumerate(trio) if ri == 0 or j != ri - 1]
+            mf = snap_files(run["after"] or {}).get(b"templates/sub/mod.rs", b"")
+            got = sorted(re.findall(rb"mod template_([A-Za-z0-9_]+);", mf))
+            want = sorted(fn_path(f)[1].encode() for f in present)
+            if got != want:
+                oracle_fail.append((rs[s0 + 7]["key"], "run %d into one OUT_DIR: the module of directory sub declares %s but the directory holds %s" % (ri + 1, [x.decode() for x in got], present),
+                                    mf[-400:].decode("utf8", "replace"))); break
         chk.count(scen[s0][0][2].encode() if isinstance(scen[s0][0][2], str) else scen[s0][0][2], True)
         outs = [tfile(rs[s0], 0, name), tfile(rs[s0 + 1], 0, name), tfile(rs[s0 + 2], 0, name), tfile(rs[s0 + 3], 0, name), tfile(rs[s0 + 3], 1, name), tfile(rs[s0 + 4], 2, name), tfile(rs[s0 + 5], 0, name), tfile(rs_env[k], 0, name)]
         # (g): five copies in five directories, each with its own declaration
